@@ -2,16 +2,18 @@
 # seed_check.sh <patch.diff> <prop> [<prop>...]: apply a seeded change to /repo, run the checks, undo.
 P="$1"; shift
 cd /repo || exit 2
-git diff --quiet || { echo "repo dirty"; exit 2; }
-if ! git apply --check "$P" 2>/dev/null; then
-  if ! git apply --3way "$P" 2>/dev/null; then echo "PATCH DOES NOT APPLY: $P"; git checkout -q -- . ; exit 3; fi
+git diff --quiet && git diff --cached --quiet || { echo "repo dirty"; exit 2; }
+restore() { git reset -q HEAD -- . 2>/dev/null; git checkout -q -- . 2>/dev/null; }
+if git apply --check "$P" 2>/dev/null; then
+  git apply "$P"
+elif git apply --3way "$P" 2>/dev/null && ! git diff --name-only --diff-filter=U | grep -q .; then
   git reset -q
 else
-  git apply "$P"
+  echo "PATCH DOES NOT APPLY: $P"; restore; exit 3
 fi
 for c in "$@"; do
   out=$(/verif/check "$c" 2>&1)
   echo "$out" | head -1
   echo "$out" | grep -A3 "^VIOLATION" | grep -v "^--" | head -8 | cut -c1-260
 done
-git checkout -q -- . ; git status --short | head -3
+restore; git status --short | head -3
